@@ -51,6 +51,11 @@ def run_stream(spec, ctx, stream, cases, tag):
     cs, im = rd('cases.txt'), rd('impl.txt')
     if len(cs) != len(im):
         raise Broken('harness produced %d observations for %d cases' % (len(im), len(cs)))
+    # implementation-only extras (panic locations, check() verdicts) for the specs that want them
+    if os.path.exists(os.path.join(wd, 'extra.txt')):
+        ex = rd('extra.txt')
+        if len(ex) == len(cs):
+            ctx.setdefault('extras', {}).update(dict(zip(cs, ex)))
     mi = []
     idx = []
     if stream.get('model_in_file'):
